@@ -74,7 +74,7 @@ def pair_options(nout_src):
     return opts
 
 
-def build_job(ch, n, multi, gpu_possible, fixed_edges=None, with_ext=True, ext_sinks=False):
+def build_job(ch, n, multi, gpu_possible, fixed_edges=None, with_ext=True, ext_sinks=False, ext_all=False):
     """Returns (JobInstance, spec) -- spec is the plain description used by the sequential oracle."""
     spec = {"tasks": [], "edges": [], "ext": []}
     for j in range(n):
@@ -102,7 +102,7 @@ def build_job(ch, n, multi, gpu_possible, fixed_edges=None, with_ext=True, ext_s
         consumed = {(i, o) for t in spec["tasks"] for (i, o, _, _) in t["ins"]}
         for j, t in enumerate(spec["tasks"]):
             for o in out_names(t["nout"]):
-                if (j, o) not in consumed and ch.flag(f"extsink{j}"):
+                if (j, o) not in consumed and (ext_all or ch.flag(f"extsink{j}")):
                     spec["ext"].append((j, o))
     if False:
         for o in []:
@@ -158,6 +158,7 @@ class PlanCounter:
 
 
 HOST_SHAPES = {
+    "1x66": [[0] * 66], "6x11": [[0] * 11] * 6,
     "1x1": [[0]], "1x2": [[0, 0]], "2x1": [[0], [0]], "2x2": [[0, 0], [0, 0]], "3x1": [[0], [0], [0]], "3x2": [[0, 0]] * 3,
     "2x1g": [[1], [0]], "1x2g": [[1, 0]], "2x2g": [[1, 0], [0, 0]], "1x1g": [[1]],
 }
@@ -169,7 +170,7 @@ def run_controller(ch, params, monitors, fail_point=False):
     fixed = {tuple(map(int, k.split("-"))): v for k, v in params.get("fixed", {}).items()}
     with ch.untraced():
         FALSY["on"] = bool(params.get("falsy"))
-        job, spec = build_job(ch, n, multi, gpu_possible, fixed, with_ext=not params.get("family"), ext_sinks=bool(params.get("family")))
+        job, spec = build_job(ch, n, multi, gpu_possible, fixed, with_ext=not params.get("family"), ext_sinks=bool(params.get("family")), ext_all=bool(params.get("ext_all")))
         sim = sim_cluster.SimCluster(job, hosts, ch, K, monitors, ch.untraced)
         if fail_point:
             sim.fail_at = ch.pick(6, "fail_at")
@@ -214,6 +215,10 @@ def family_shards(tier):
         fixed = {f"{i}-{j}": 0 for i in range(4) for j in range(i + 1, 4)}
         fixed.update({"0-2": 1, "0-3": 1, "1-3": 1})
         out.append({"n": 4, "multi": [0] * 4, "hosts": hosts, "K": K, "fixed": fixed, "family": "fan-in with sibling"})
+    # a wide job on a large cluster: more tasks become computable in one round than any per-round limit one might think of
+    for hosts in (["1x66"] if tier == "quick" else ["1x66", "6x11"]):
+        n = 66
+        out.append({"n": n, "multi": [0] * n, "hosts": hosts, "K": 0, "fixed": {f"{i}-{j}": 0 for i in range(n) for j in range(i + 1, n)}, "family": "66 independent tasks", "ext_all": True})
     for (c, L) in fams:
         n = c * L
         fixed = {}
